@@ -118,7 +118,7 @@ pub fn run(ctx: &mut Ctx) {
     for (n, ok) in rzuc::selftest() {
         ctx.selftest(&n, ok);
     }
-    ctx.require(&["eea_official", "eia_official", "eea_sweep", "eia_sweep", "eia_length_zero", "eea_dir=0", "eea_dir=1", "eia_dir=0", "eia_dir=1", "eia_flip_beyond_length", "eia_flip_inside_length", "eea_long", "eia_long", "msg_longer_than_needed", "all_bearers"]);
+    ctx.require(&["eea_official", "eia_official", "eea_sweep", "eia_sweep", "eia_length_zero", "eea_dir=0", "eea_dir=1", "eia_dir=0", "eia_dir=1", "eia_flip_beyond_length", "eia_flip_inside_length", "eea_long", "eia_long", "msg_longer_than_needed", "all_bearers", "structured_words"]);
     for r in 0..32 {
         ctx.required.push(format!("eea_lenmod32={:02}", r));
         ctx.required.push(format!("eia_lenmod32={:02}", r));
@@ -193,6 +193,37 @@ pub fn run(ctx: &mut Ctx) {
         }
     }
     ctx.exhaustive("32 bearers x 2 directions x {1,31,32,33,64,100} bits", true);
+
+    // --- messages made of boundary WORDS (0, 1, 2, 0x80000000, 0xffffffff, 0x00010000, 0x0000ffff), alone and mixed with
+    // random words, every position: a per-word bit scan that mishandles a lone low or high bit shows only here
+    {
+        let pal: [u32; 8] = [0, 1, 2, 0x8000_0000, 0xffff_ffff, 0x0001_0000, 0x0000_ffff, 0x7fff_ffff];
+        let mut ps = ctx.prng("words");
+        let reps = ctx.n(3, 60);
+        let mut wi = 0u64;
+        for rep in 0..reps {
+            for nwords in 1..=6usize {
+                for special in 0..8usize {
+                    wi += 1;
+                    let key: [u8; 16] = ps.arr();
+                    let count = ps.next() as u32;
+                    let (bearer, dir) = (ps.below(32) as u32, ps.below(2) as u32);
+                    let mut msg: Vec<u32> = (0..nwords + 1).map(|_| if rep % 3 == 0 { pal[ps.below(8) as usize] } else { ps.next() as u32 }).collect();
+                    let pos = ps.below(nwords as u64) as usize;
+                    msg[pos] = pal[special];
+                    let len = (32 * nwords) as u32 - if rep % 2 == 0 { 0 } else { ps.below(31) as u32 };
+                    let sub = ps.next();
+                    if !ctx.mine(wi) {
+                        continue;
+                    }
+                    let mut p2 = Prng::new(sub, "w");
+                    ctx.class("structured_words");
+                    eea_case(ctx, &key, count, bearer, dir, len, &msg, "structured_words");
+                    eia_case(ctx, &key, count, bearer, dir, len, &msg, "structured_words", &mut p2);
+                }
+            }
+        }
+    }
 
     // --- random longer lengths up to 65504 (3GPP domain), a few up to 2^20
     let n = ctx.n(150, 6000);
